@@ -122,6 +122,12 @@ def resolvers(ctx, db, rid1='C01.set-then-resolve', rid2='C01.verdict'):
                         ok = False; why = 'the winner does not store its payload (set called %d times)' % len(outer_sets)
                     elif any(s[1] != CP for s in outer_sets + ress):
                         ok = False; why = 'set/resolve receiver is not the pointer obtained from claim()'
+                    elif root.endswith('set_value') and not _is_drop(f) and len(outer_sets) == 1 and outer_sets[0][2].get('depth', 0) == 0 and \
+                            len([a for a in (outer_sets[0][2].get('args') or []) if not a.get('default')]) != len(f['params']):
+                        # the result is exactly the winner's payload: every argument of the resolver reaches set() (an exception handed to a
+                        # promise<void> is a payload too)
+                        ok = False; why = 'set() receives %d of the %d arguments of the resolver: the winner\'s payload (%s) is not what is stored' % (
+                            len(outer_sets[0][2].get('args') or []), len(f['params']), ', '.join(p_['type'] for p_ in f['params']))
                 elif win is False and (outer_sets or ress):
                     ok = False; why = 'the loser of the claim touches the future'
                 if not ok and order_bad is None:
